@@ -83,7 +83,7 @@ func VerifC18Close() {
 		if e == nil {
 			return
 		}
-		blocks.Hang[parent.GetHash().String()] = true
+		blocks.Hang[vstub.BlockKey(parent.GetHash())] = true
 		_ = a.Sync(ctx, []ipfslog.Entry{e.Copy()})
 		vstub.WaitIdle() // the fetch of the parent is now pending
 		closer()
